@@ -209,6 +209,12 @@ pub enum Case {
     /// tiny contents `kilo_reads` thousand times each, short runs inside one cluster then a jump
     /// to another: windows of a few instructions in the cluster lookup are met by sheer frequency
     S5 { threads: u8, kilo_reads: u8, comp: Comp, seed: u32 },
+    /// long-lived reader threads under which packs come and go: `rounds` times, the main thread
+    /// opens one of two packs that hold DIFFERENT bytes under the same content numbers, hands it
+    /// to the same `threads` worker threads, they read and give it back, the main thread closes
+    /// it (its memory is free for the next one). Nothing a thread remembers about a closed pack
+    /// may be served for the next.
+    S6 { threads: u8, rounds: u8, seed: u32 },
 }
 
 pub struct C07;
@@ -233,6 +239,117 @@ fn s4_container(ctx: &Ctx, big: bool) -> Result<std::sync::Arc<(std::path::PathB
     let b = Arc::new((built.main_path.clone(), built.model));
     g[big as usize] = Some(Arc::clone(&b));
     Ok(b)
+}
+
+/// two small packs (3 full clusters) whose content k is blob_bytes(k) in one and blob_bytes(k + 7_000_000) in the other
+fn s6_pack(ctx: &Ctx, salt: u32) -> Result<std::path::PathBuf, Failure> {
+    let path = ctx.path(&format!("c07-s6-{salt}.jbkc"));
+    if path.exists() {
+        return Ok(path);
+    }
+    let tmp = ctx.path("c07-s6-building.jbkc");
+    let upath = jbk::Utf8PathBuf::from_path_buf(tmp.clone()).unwrap();
+    let mut creator = match jbk::creator::ContentPackCreator::new(&upath, jbk::PackId::from(1), vendor(), Default::default(), jbk::creator::Compression::None) {
+        Ok(c) => c,
+        Err(e) => fail!("create-error", "{e}"),
+    };
+    for i in 0..3 * BLOBS_PER_CLUSTER {
+        if let Err(e) = creator.add_content(Box::new(std::io::Cursor::new(blob_bytes(i + salt))), jbk::creator::CompHint::No) {
+            fail!("add-error", "{e}");
+        }
+    }
+    match creator.finalize() {
+        Ok((f, _)) => drop(f),
+        Err(e) => fail!("finalize-error", "{e}"),
+    }
+    std::fs::rename(&tmp, &path).unwrap();
+    Ok(path)
+}
+
+fn run_s6(ctx: &Ctx, threads: u8, rounds: u8, seed: u32, info: &mut CaseInfo) -> Result<(), Failure> {
+    use std::sync::mpsc;
+    let salts = [0u32, 7_000_000];
+    let paths = [s6_pack(ctx, salts[0])?, s6_pack(ctx, salts[1])?];
+    let nthreads = (threads as usize).clamp(1, 16);
+    // worker t: receives (pack, salt), reads, drops the pack, answers
+    let mut txs = vec![];
+    let (done_tx, done_rx) = mpsc::channel::<Result<u64, Failure>>();
+    let mut handles = vec![];
+    for t in 0..nthreads {
+        let (tx, rx) = mpsc::channel::<(Arc<jbk::reader::ContentPack>, u32, u32)>();
+        txs.push(tx);
+        let done_tx = done_tx.clone();
+        handles.push(std::thread::spawn(move || {
+            while let Ok((pack, salt, round)) = rx.recv() {
+                let r = (|| -> Result<u64, Failure> {
+                    let mut n = 0;
+                    for step in 0..6u32 {
+                        // the same six content numbers (two per cluster) every round, in the opposite
+                        // order every other round: a round starts in the cluster the previous one ended in
+                        let k = if round % 2 == 0 { step } else { 5 - step };
+                        let idx = (k / 2) * BLOBS_PER_CLUSTER + (seed.wrapping_add(k * 131 + t as u32 * 17)) % BLOBS_PER_CLUSTER;
+                        let e = blob_bytes(idx + salt);
+                        let region = match pack.get_content(jbk::ContentIdx::from(idx)) {
+                            Ok(Some(r)) => r,
+                            Ok(None) => fail!("read-error", "S6 round {round} thread {t}: content {idx} does not exist"),
+                            Err(err) => fail!("read-error", "S6 round {round} thread {t}: content {idx}: {err}"),
+                        };
+                        let mut v = Vec::with_capacity(e.len());
+                        if let Err(err) = region.stream().read_to_end(&mut v) {
+                            fail!("read-error", "S6 round {round} thread {t}: content {idx}: {err}");
+                        }
+                        ensure!(v == e, "wrong-bytes", "S6 round {round} thread {t}: content {idx} of the pack opened for this round returns other bytes ({} for {}): those of a pack closed earlier?", v.len(), e.len());
+                        n += 1;
+                    }
+                    Ok(n)
+                })();
+                drop(pack);
+                if done_tx.send(r).is_err() {
+                    break;
+                }
+            }
+        }));
+    }
+    drop(done_tx);
+    let mut evals = 0u64;
+    let mut failure = None;
+    'rounds: for round in 0..rounds.max(2) as u32 {
+        let which = (round % 2) as usize;
+        let reader: jbk::Reader = jbk::FileSource::open(&paths[which]).unwrap().into();
+        let pack = match jbk::reader::ContentPack::new(reader) {
+            Ok(p) => Arc::new(p),
+            Err(e) => fail!("open-error", "S6: {e}"),
+        };
+        for tx in &txs {
+            let _ = tx.send((Arc::clone(&pack), salts[which], round));
+        }
+        for _ in 0..nthreads {
+            match done_rx.recv_timeout(std::time::Duration::from_secs(120)) {
+                Ok(Ok(n)) => evals += n,
+                Ok(Err(f)) => {
+                    failure = failure.or(Some(f));
+                }
+                Err(_) => {
+                    failure = failure.or(Some(Failure::new("reader-panic", format!("S6 round {round}: a reader thread died or never answered: {}", take_panic().unwrap_or_default()))));
+                    break 'rounds;
+                }
+            }
+        }
+        // every worker has dropped its clone: this closes the pack, on the main thread
+        drop(pack);
+        if failure.is_some() {
+            break;
+        }
+    }
+    drop(txs);
+    for h in handles {
+        let _ = h.join();
+    }
+    if let Some(f) = failure {
+        return Err(f);
+    }
+    info.evals = evals.max(1);
+    Ok(())
 }
 
 fn run_s5(ctx: &Ctx, threads: u8, kilo_reads: u8, comp: Comp, seed: u32, info: &mut CaseInfo) -> Result<(), Failure> {
@@ -634,7 +751,7 @@ impl Property for C07 {
     const ID: &'static str = "C07";
 
     fn rule() -> String {
-        "(S1) proptest-generated concurrent read programs: 2-16 reader threads over one opened content pack holding 48-56 lz4/lzma/zstd clusters of 4095 small blobs (more clusters than the 40 cache slots and the 8 pool threads; 5-25 decode chunks per cluster), op lists of whole reads, get_slice, streamed reads with small buffers and nested cuts; patterns {independent lists, every thread the same list, sweeps over all clusters forcing evictions while regions are held}; a seeded perturbation plan injects yields / 20us / 200us / 2ms sleeps at the cfg(jubako_verif) schedule points (before/after length publication, reader wake-up and slice, cluster cache lock, plain-reader construction). Oracle: every read returns exactly the model bytes (derived from the content index), every thread finishes. (S2) bounded exhaustive: the real SeekableDecoder over a harness-owned producer that releases chunk k only when told; every interleaving of {release chunk 1..3 in order} with {start reader r} for 2-3 readers (140 schedules for 3+3) x range triples drawn from the set of ranges whose ends sit on the chunk boundaries +-1, through get_slice and through stream reads; a step only ends when its publication / the reader's entry into the wait was observed through the hooks. Oracle: exact bytes; after the last release every reader returns within 5 s (else lost wake-up). Non-trivial = S1: at least 2 threads and a plan strength > 0 touching >40 clusters or the same contents; S2: a schedule in which at least one reader had to wait for a publication; distinct by (pattern, threads, compression, plan) / (ranges, schedule). (S3) readers that are tasks of a rayon thread pool (1-6 threads, or rayon's global pool), at least as many readers as pool threads, each first asking for a cluster nobody has decoded yet; the case itself has no timeout: a pool whose workers all wait for a decoder that cannot run is reported by the engine's blocked-forever criterion. S4 (directory side): 2..16 threads, released together by a barrier, make the first access to the entry stores and value stores of a freshly opened container through its shared storages (the store caches are filled while the others ask) and read a spread of entries, compared with the model; 6 fixed cases of 25 fresh containers each plus generated ones. S5 (hammer): 2..16 threads ask one opened pack for tiny contents 10 000..60 000 times each, runs of 1-3 reads inside a cluster then a jump to another of 24 clusters, exact bytes compared every time: windows of a few instructions in the cluster lookup are met by frequency, not by injected delays (4 fixed cases of 60 000 reads per thread plus generated ones).".into()
+        "(S1) proptest-generated concurrent read programs: 2-16 reader threads over one opened content pack holding 48-56 lz4/lzma/zstd clusters of 4095 small blobs (more clusters than the 40 cache slots and the 8 pool threads; 5-25 decode chunks per cluster), op lists of whole reads, get_slice, streamed reads with small buffers and nested cuts; patterns {independent lists, every thread the same list, sweeps over all clusters forcing evictions while regions are held}; a seeded perturbation plan injects yields / 20us / 200us / 2ms sleeps at the cfg(jubako_verif) schedule points (before/after length publication, reader wake-up and slice, cluster cache lock, plain-reader construction). Oracle: every read returns exactly the model bytes (derived from the content index), every thread finishes. (S2) bounded exhaustive: the real SeekableDecoder over a harness-owned producer that releases chunk k only when told; every interleaving of {release chunk 1..3 in order} with {start reader r} for 2-3 readers (140 schedules for 3+3) x range triples drawn from the set of ranges whose ends sit on the chunk boundaries +-1, through get_slice and through stream reads; a step only ends when its publication / the reader's entry into the wait was observed through the hooks. Oracle: exact bytes; after the last release every reader returns within 5 s (else lost wake-up). Non-trivial = S1: at least 2 threads and a plan strength > 0 touching >40 clusters or the same contents; S2: a schedule in which at least one reader had to wait for a publication; distinct by (pattern, threads, compression, plan) / (ranges, schedule). (S3) readers that are tasks of a rayon thread pool (1-6 threads, or rayon's global pool), at least as many readers as pool threads, each first asking for a cluster nobody has decoded yet; the case itself has no timeout: a pool whose workers all wait for a decoder that cannot run is reported by the engine's blocked-forever criterion. S4 (directory side): 2..16 threads, released together by a barrier, make the first access to the entry stores and value stores of a freshly opened container through its shared storages (the store caches are filled while the others ask) and read a spread of entries, compared with the model; 6 fixed cases of 25 fresh containers each plus generated ones. S5 (hammer): 2..16 threads ask one opened pack for tiny contents 10 000..60 000 times each, runs of 1-3 reads inside a cluster then a jump to another of 24 clusters, exact bytes compared every time: windows of a few instructions in the cluster lookup are met by frequency, not by injected delays (4 fixed cases of 60 000 reads per thread plus generated ones). S6: 1..8 long-lived reader threads under which two packs holding different bytes under the same content numbers are opened, read and closed in turn (by the main thread) 10..80 times: what a thread remembers of a closed pack must not be served for the next one.".into()
     }
 
     fn assumptions() -> Vec<String> {
@@ -698,12 +815,16 @@ impl Property for C07 {
             });
         let s4 = (prop_oneof![Just(2u8), Just(4u8), Just(8u8), 2u8..=12], 2u8..=6, any::<bool>(), any::<u32>()).prop_map(|(threads, rounds, big, seed)| Case::S4 { threads, rounds, big, seed });
         let s5 = (prop_oneof![Just(2u8), Just(4u8), Just(8u8), 2u8..=12], 10u8..=60, any::<u32>()).prop_map(|(threads, kilo_reads, seed)| Case::S5 { threads, kilo_reads, comp: Comp::None, seed });
-        prop_oneof![10 => s1, 2 => s3, 1 => s4, 1 => s5].boxed()
+        let s6 = (prop_oneof![Just(1u8), Just(2u8), Just(4u8), 1u8..=8], 10u8..=80, any::<u32>()).prop_map(|(threads, rounds, seed)| Case::S6 { threads, rounds, seed });
+        prop_oneof![10 => s1, 2 => s3, 1 => s4, 1 => s5, 1 => s6].boxed()
     }
 
     fn fixed_cases(tier: Tier) -> Vec<Case> {
         let mut out = vec![];
         // S4: 25 freshly opened containers per case, 4..16 threads released together on their stores
+        for threads in [1u8, 4, 8] {
+            out.push(Case::S6 { threads, rounds: 80, seed: 11 * threads as u32 });
+        }
         for (threads, comp) in [(8u8, Comp::None), (3, Comp::None), (16, Comp::None), (8, Comp::Zstd(3))] {
             out.push(Case::S5 { threads, kilo_reads: 60, comp, seed: 7 + threads as u32 });
         }
@@ -756,7 +877,7 @@ impl Property for C07 {
     }
 
     fn required_classes(_tier: Tier) -> Vec<&'static str> {
-        vec!["S1", "S2", "S5:hammer", "S4:concurrent-first-access-to-directory-stores", "S3:readers-are-rayon-workers", "S3:own-pool", "reader-waited-for-publication", "pattern:Sweep", "pattern:Same", "threads>=8", "comp:lz4", "comp:lzma", "comp:zstd", "comp:none", "touched>40-clusters"]
+        vec!["S1", "S2", "S6:packs-reopened-under-long-lived-threads", "S5:hammer", "S4:concurrent-first-access-to-directory-stores", "S3:readers-are-rayon-workers", "S3:own-pool", "reader-waited-for-publication", "pattern:Sweep", "pattern:Same", "threads>=8", "comp:lz4", "comp:lzma", "comp:zstd", "comp:none", "touched>40-clusters"]
     }
 
     fn max_shrink_iters() -> u32 {
@@ -805,6 +926,13 @@ impl Property for C07 {
                 info.evals = 2 * ntasks as u64;
                 info.nontrivial = ntasks >= (*pool_threads).max(1) as u32;
                 info.key = hash_str(&format!("S3|{comp:?}|{pool_threads}|{tasks}|{}", seed % 64));
+                Ok(info)
+            }
+            Case::S6 { threads, rounds, seed } => {
+                info.class("S6:packs-reopened-under-long-lived-threads");
+                run_s6(ctx, *threads, *rounds, *seed, &mut info)?;
+                info.nontrivial = true;
+                info.key = hash_str(&format!("S6|{threads}|{rounds}|{}", seed % 16));
                 Ok(info)
             }
             Case::S5 { threads, kilo_reads, comp, seed } => {
